@@ -3,6 +3,7 @@ package mcap
 import (
 	"fmt"
 	"io"
+	"math"
 )
 
 // ParseHeader parses a header record.
@@ -294,11 +295,19 @@ func parseAttachmentReader(
 	if err != nil {
 		return nil, fmt.Errorf("failed to read create time: %w", err)
 	}
-	name, err := readPrefixedString(buf, crcReader)
+	// when the extent of the record is known (the lexer hands in a LimitedReader),
+	// no field can be longer than what is left of the record
+	remaining := func() uint64 {
+		if lr, ok := r.(*io.LimitedReader); ok && lr.N >= 0 {
+			return uint64(lr.N)
+		}
+		return math.MaxUint64
+	}
+	name, err := readPrefixedString(buf, crcReader, remaining())
 	if err != nil {
 		return nil, fmt.Errorf("failed to read attachment name: %w", err)
 	}
-	mediaType, err := readPrefixedString(buf, crcReader)
+	mediaType, err := readPrefixedString(buf, crcReader, remaining())
 	if err != nil {
 		return nil, fmt.Errorf("failed to read media type: %w", err)
 	}
